@@ -24,7 +24,7 @@ T2: wire harness.  pgcat in-process, mock PostgreSQL backends that log every Can
     before the Client value is dropped while another client takes the server and the departing
     client's key is used for a cancel.
 """
-import json, os, re
+import json, os, random, re
 import vlib
 from props import wirelib as WL
 
@@ -55,6 +55,7 @@ class Builder:
         self.pools = {}
         self.parked = {}       # client -> actor id
         self.randkeys = []
+        self._rng = random.Random(len(label) * 7919 + psize)
         pools = ["dba", "dbb"] if two_pools else ["dba"]
         for i, p in enumerate(pools):
             self.pools[p] = {"backend": "b%d" % i, "in_use": 0, "waiter": None}
@@ -236,6 +237,7 @@ class Builder:
 
     def cancel(self, target, rng=None):
         """target: client name (the key issued to it) | ["pid_of", c] (right pid, wrong secret) | "random"."""
+        rng = rng or self._rng
         self.actions.append(["cancel", target])
         self.steps.append({"op": "mark_events", "ev": "cancel", "mark": "k"})
         if isinstance(target, str) and target in self.cl:
